@@ -115,8 +115,8 @@ def outcome_of_result(call: dict, r) -> dict:
 
 BH_KINDS = ["none", "empty", "current", "stale", "future", "flip", "trunc8", "trunc32", "extend", "upper", "newline"]
 BH_WEIGHTS = [("none", 5), ("current", 8), ("stale", 4), ("future", 3), ("flip", 2), ("trunc8", 2), ("trunc32", 1),
-              ("extend", 1), ("upper", 1), ("newline", 1), ("empty", 1)]
-STEP_KINDS = [("content", 8), ("changes", 5), ("normalize", 3), ("content_dry", 2), ("changes_dry", 1), ("normalize_dry", 1),
+              ("extend", 1), ("upper", 1), ("newline", 1), ("empty", 1), ("spaces", 1), ("padded", 1), ("prefixed", 1)]
+STEP_KINDS = [("ext_crlf", 2), ("ext_binary", 1), ("content", 8), ("changes", 5), ("normalize", 3), ("content_dry", 2), ("changes_dry", 1), ("normalize_dry", 1),
               ("cli_content", 2), ("cli_changes", 2), ("atomic", 2), ("ext_valid", 3), ("ext_invalid", 1), ("ext_delete", 1),
               ("bad_both", 1), ("bad_path", 1), ("bad_content", 2), ("ext_lenient", 2)]
 
@@ -146,6 +146,10 @@ def gen_history(t: Tape, idx: int, maxlen: int) -> dict:
             st["text"] = docs.canonical(docs.gen_doc(t, mk + "x"))
         if kind == "ext_lenient":
             st["text"] = docs.gen_doc(t, mk + "x", "lenient")
+        if kind == "ext_crlf":
+            st["text"] = docs.gen_doc(t, mk + "x", t.pick(["canonical", "frontmatter"], "h.crlf")).replace("\n", "\r\n")
+        if kind == "ext_binary":
+            st["text"] = None
         if kind == "ext_invalid":
             st["text"] = t.pick(docs.UNPARSEABLE + ["plain prose, not octave :: {\n"], "h.inv")
         if kind == "bad_path":
@@ -194,6 +198,12 @@ def bh_value(kind: str, cur: bytes | None, prev_hashes: list, future_text: str |
         return base.upper()
     if kind == "newline":
         return base + "\n"
+    if kind == "spaces":
+        return "   "  # not a digest at all: nothing hashes to it
+    if kind == "padded":
+        return " " + base + " "  # the same digest, padded
+    if kind == "prefixed":
+        return "sha256:" + base  # another conventional spelling of the same digest
     raise ValueError(kind)
 
 
@@ -241,7 +251,7 @@ def run_history(case: dict, stats: Stats | None = None) -> dict:
                 else:
                     os.makedirs(os.path.dirname(target), exist_ok=True)
                     with open(target, "wb") as f:
-                        f.write(st["text"].encode())
+                        f.write(st["text"].encode() if st.get("text") is not None else b"===DOC===\nA::\xff\xfe\x00\n===END===\n")
             log.append([k, kind])
             sig_hist.append(kind)
             continue
@@ -290,6 +300,8 @@ def run_history(case: dict, stats: Stats | None = None) -> dict:
         clean = kind in ("content", "content_dry", "changes", "changes_dry", "normalize", "normalize_dry", "cli_content",
                          "cli_changes", "atomic")
         bh_norm = bh.strip().lower() if bh else None
+        if bh_norm and bh_norm.startswith("sha256:"):
+            bh_norm = bh_norm[7:]
         different_digest = bool(bh) and exists and decodable and bh_norm != cur_h
         same_digest_other_spelling = bool(bh) and exists and decodable and bh_norm == cur_h and bh != cur_h
         status = out["status"]
